@@ -2,7 +2,7 @@
 bytes, the chain id, the key and the hash function as OPAQUE / uninterpreted values (all operation groups, keys, chain ids).
 
   sign():  mixed validation passes -> ValueError;  consensus kinds (pass 0): chain id undefined -> ValueError, else the key signs
-           0x02 ‖ chain_id_bytes ‖ forged;   every other kind: the key signs 0x03 ‖ forged;   generic=True is requested;
+           0x02 ‖ chain_id_bytes ‖ forged;   every other kind: the key signs 0x03 ‖ forged;
            the result is the same group carrying exactly that signature.
   binary_payload(): forged ‖ raw signature (ValueError when unsigned);   hash(): b58('o', blake2b_32(forged ‖ raw signature)).
 Cryptographic validity of the signature itself is the assumed contract of the key primitives (C07).
@@ -102,7 +102,8 @@ def h_sign(kinds, with_chain):
             return
         e.check(f'OperationGroup.{tag}::returns.only_if(single pass and chain id known for consensus)', z3.BoolVal(len(passes) == 1 and (passes != {0} or with_chain)))
         ok1 = len(key.signed) == 1
-        e.check(f'OperationGroup.{tag}::ensures.key_signs_once_generic', z3.BoolVal(ok1 and key.signed[0][1] is True))
+        # the signature form (generic `sig` or curve-specific) is not demanded by the property: only that the key signs exactly once
+        e.check(f'OperationGroup.{tag}::ensures.key_signs_exactly_once', z3.BoolVal(ok1))
         if ok1:
             msg = norm([key.signed[0][0]])
             forged = C('HEX', '<forged_hex>')
